@@ -416,7 +416,7 @@ def run_check(tier, seed):
                     w = ln.split()
                     ln = 'S %s %s %d' % (w[1], w[2], int(w[3]) | 2)
                 sl.append(ln); sm.append(m)
-        # witness of error_is_noop_multi_counterexample, always replayed on 2 processes: one pending iput, then
+        # former witness of the extract_reqs shortcut defect (now the regression example after error_is_noop_multi), always replayed on 2 processes: one pending iput, then
         # ncmpi_put_varn_int_all(varid = NC_GLOBAL)
         wit = ['S openrw 1 %d' % (cfg | 2), 'C post iput f 0 0 vara', 'P rw 1 1 g 0 0 varn', 'P rw 1 1 g 0 0 vara', 'E']
         sl = wit + sl
